@@ -293,6 +293,348 @@ theorem c18_search_check_after_any_history (c : Cfg V) (ops : List (Op V)) (d : 
     checkSound (keys (run c ops).nodes) d k (searchWithEf (run c ops).toGraph d k ef fuel) = "sound" :=
   c18_model_passes_check (run c ops).toGraph (c18_build_closed c ops) d k ef fuel
 
+/-! ## (d): list lengths, every history -/
+
+theorem LOK_remove {R : Nat → Nat → List Nat → Prop} {ix : Index V} (id pick : Nat)
+    (hfil : ∀ k i l, R k i l → R k i (l.filter (· ≠ id))) (h : LOK R ix.nodes) :
+    LOK R (remove ix id pick).1.nodes := by
+  unfold HnswBuild.remove
+  cases hf : find ix.nodes id with
+  | none => exact h
+  | some nd =>
+    intro k n hfk i l hg
+    simp only at hfk hg ⊢
+    rw [find_unlink, find_eraseKey] at hfk
+    by_cases hk : k = id
+    · simp [hk] at hfk
+    · simp only [hk, if_false] at hfk
+      cases hfn : find ix.nodes k with
+      | none => rw [hfn] at hfk; simp at hfk
+      | some n0 =>
+        rw [hfn] at hfk
+        simp only [Option.map_some, Option.some.injEq] at hfk
+        subst hfk
+        simp only [List.getElem?_map] at hg
+        cases hg0 : n0.nbrs[i]? with
+        | none => rw [hg0] at hg; simp at hg
+        | some l0 =>
+          rw [hg0] at hg
+          simp only [Option.map_some, Option.some.injEq] at hg
+          subst hg
+          exact hfil k i l0 (h k n0 hfn i l0 hg0)
+
+theorem LOK_put_empty {R : Nat → Nat → List Nat → Prop} {ns : NodeMap V} (h : LOK R ns) (id level : Nat)
+    (v : V) (hnil : ∀ i, R id i []) : LOK R (put ns id ⟨v, List.replicate (level + 1) []⟩) := by
+  apply LOK_put h
+  intro i l hg
+  rw [List.getElem?_replicate] at hg
+  split at hg
+  · simp only [Option.some.injEq] at hg; subst hg; exact hnil i
+  · simp at hg
+
+theorem bound_insert (c : Cfg V) (ix : Index V) (id level : Nat) (v : V)
+    (h : LOK (fun _ i l => l.length ≤ (if i = 0 then c.mMax else c.m)) ix.nodes) :
+    LOK (fun _ i l => l.length ≤ (if i = 0 then c.mMax else c.m)) (insert c ix id level v).nodes := by
+  have hput := LOK_put_empty h id level v (fun i => by simp)
+  unfold HnswBuild.insert
+  cases ix.entry with
+  | none => exact hput
+  | some ep =>
+    simp only
+    split
+    · exact bound_layers c id v _ _ _ hput
+    · exact bound_layers c id v _ _ _ hput
+
+/-- **C18 (construction, d).** After every history, every neighbour list on layer 0 has at most
+`M0` entries and every list on a higher layer at most `M` (pruning restores the bound after each
+back link). -/
+theorem c18_build_degree_bound (c : Cfg V) (ops : List (Op V)) :
+    ∀ k n, find (run c ops).nodes k = some n → ∀ i l, n.nbrs[i]? = some l →
+      l.length ≤ (if i = 0 then c.mMax else c.m) := by
+  suffices h : ∀ (ops : List (Op V)) (ix : Index V),
+      LOK (fun _ i l => l.length ≤ (if i = 0 then c.mMax else c.m)) ix.nodes →
+      LOK (fun _ i l => l.length ≤ (if i = 0 then c.mMax else c.m)) (ops.foldl (step c) ix).nodes from
+    h ops HnswBuild.empty (fun k n hf => by simp [HnswBuild.empty, find] at hf)
+  intro ops
+  induction ops with
+  | nil => intro ix h; exact h
+  | cons op rest ih =>
+    intro ix h
+    rw [List.foldl_cons]
+    apply ih
+    cases op with
+    | ins id level v => exact bound_insert c ix id level v h
+    | rem id pick =>
+      exact LOK_remove id pick (fun k i l hl => Nat.le_trans (List.length_filter_le _ _) hl) h
+
+/-! ## (b), (c): histories that insert only FRESH ids -/
+
+/-- every insert of the history is of an id that is not present at that moment (decidable) -/
+def freshRun (c : Cfg V) : Index V → List (Op V) → Bool
+  | _, [] => true
+  | ix, .ins id level v :: r => !(keys ix.nodes).contains id && freshRun c (insert c ix id level v) r
+  | ix, .rem id pick :: r => freshRun c (remove ix id pick).1 r
+
+theorem reach_ne {adj : Nat → List Nat} {id a b : Nat} (h : ReachR (adjRel adj) a b)
+    (hadj : ∀ x, ∀ y ∈ adj x, y ≠ id) (ha : a ≠ id) : b ≠ id := by
+  induction h with
+  | refl => exact ha
+  | tail _ hs _ => exact hadj _ _ hs
+
+theorem adjAt_mem {ns : NodeMap V} {lc a b : Nat} (h : b ∈ adjAt ns lc a) :
+    ∃ n l, find ns a = some n ∧ n.nbrs[lc]? = some l ∧ b ∈ l := by
+  unfold adjAt at h
+  cases hf : find ns a with
+  | none => rw [hf] at h; simp at h
+  | some n =>
+    rw [hf] at h
+    simp only [List.getD] at h
+    cases hg : n.nbrs[lc]? with
+    | none => rw [hg] at h; simp at h
+    | some l => rw [hg] at h; exact ⟨n, l, rfl, hg, by simpa using h⟩
+
+theorem descendFrom_ne (c : Cfg V) (ns : NodeMap V) (v : V) (lo id : Nat)
+    (hadj : ∀ lc x, ∀ y ∈ adjAt ns lc x, y ≠ id) :
+    ∀ (n cur : Nat), cur ≠ id → descendFrom c ns v lo n cur ≠ id := by
+  intro n
+  induction n with
+  | zero => intro cur h; exact h
+  | succ m ih =>
+    intro cur h
+    simp only [descendFrom]
+    exact ih _ (reach_ne (searchLayerSingle_reach _ _ _ _) (hadj _) h)
+
+theorem nodup_snoc {l : List Nat} {a : Nat} (h : l.Nodup) (ha : a ∉ l) : (l ++ [a]).Nodup := by
+  rw [List.nodup_append]
+  refine ⟨h, by simp, ?_⟩
+  intro x hx y hy
+  rw [List.mem_singleton] at hy
+  subst hy
+  intro hxy; subst hxy; exact ha hx
+
+theorem selectHeur_nodup (c : Cfg V) (ns : NodeMap V) (d : Nat → Nat) (cands : List Nat) (m : Nat)
+    (h : cands.Nodup) : (selectHeur c ns d cands m).Nodup := by
+  unfold selectHeur
+  suffices g : ∀ (cs sel : List Nat), sel.Nodup → (∀ x ∈ sel, x ∉ cs) → cs.Nodup →
+      (cs.foldl (selectStep c ns d m) sel).Nodup from g cands [] (by simp) (by simp) h
+  intro cs
+  induction cs with
+  | nil => intro sel hs _ _; exact hs
+  | cons y ys ih =>
+    intro sel hs hdis hnd
+    rw [List.foldl_cons]
+    have hy : y ∉ ys := (List.nodup_cons.mp hnd).1
+    apply ih
+    · unfold selectStep
+      split
+      · exact hs
+      · cases find ns y with
+        | none => exact hs
+        | some cn =>
+          simp only
+          split
+          · exact hs
+          · exact nodup_snoc hs (fun hm => hdis y hm (List.mem_cons_self ..))
+    · exact selectStep_mem c ns d m sel y (fun x => x ∉ ys)
+        (fun x hx hxy => hdis x hx (List.mem_cons_of_mem _ hxy)) (fun _ => hy)
+    · exact (List.nodup_cons.mp hnd).2
+
+theorem LOK_linkFold_mem {R : Nat → Nat → List Nat → Prop} (id lc mMax : Nat) (sel : List Nat)
+    (hpush : ∀ nb ∈ sel, ∀ old, R nb lc old → R nb lc (old ++ [id]))
+    (acc : NodeMap V × List Nat) (h : LOK R acc.1) :
+    LOK R (sel.foldl (linkStep id lc mMax) acc).1 := by
+  induction sel generalizing acc with
+  | nil => exact h
+  | cons x xs ih =>
+    rw [List.foldl_cons]
+    apply ih (fun nb hnb => hpush nb (List.mem_cons_of_mem _ hnb))
+    unfold linkStep
+    cases hf : find acc.1 x with
+    | none => exact h
+    | some n =>
+      simp only
+      by_cases hlc : lc < n.nbrs.length
+      · simp only [hlc, if_true]
+        exact LOK_setLayer h x lc _ (hpush x (List.mem_cons_self ..) _ (LOK_getD h hf hlc))
+      · simp only [hlc, if_false]; exact h
+
+theorem find_linkStep_ne (id lc mMax : Nat) (acc : NodeMap V × List Nat) (x nb : Nat) (hne : x ≠ nb) :
+    find (linkStep id lc mMax acc x).1 nb = find acc.1 nb := by
+  unfold linkStep
+  cases find acc.1 x with
+  | none => rfl
+  | some n =>
+    simp only
+    split
+    · simp only [setLayer, find_modify, hne, if_false]
+    · rfl
+
+theorem linkFold_nodup (id lc mMax : Nat) (sel : List Nat) (hs : sel.Nodup)
+    (acc : NodeMap V × List Nat) (h : LOK (fun _ _ l => l.Nodup) acc.1)
+    (hid : ∀ nb ∈ sel, ∀ n, find acc.1 nb = some n → ∀ l, n.nbrs[lc]? = some l → id ∉ l) :
+    LOK (fun _ _ l => l.Nodup) (sel.foldl (linkStep id lc mMax) acc).1 := by
+  induction sel generalizing acc with
+  | nil => exact h
+  | cons x xs ih =>
+    rw [List.foldl_cons]
+    have hx := List.nodup_cons.mp hs
+    apply ih hx.2
+    · unfold linkStep
+      cases hf : find acc.1 x with
+      | none => exact h
+      | some n =>
+        simp only
+        by_cases hlc : lc < n.nbrs.length
+        · simp only [hlc, if_true]
+          apply LOK_setLayer h x lc
+          apply nodup_snoc (LOK_getD h hf hlc)
+          exact hid x (List.mem_cons_self ..) n hf _
+            (by simp [List.getD, List.getElem?_eq_getElem hlc])
+        · simp only [hlc, if_false]; exact h
+    · intro nb hnb n hfn l hg
+      have hne : x ≠ nb := fun he => hx.1 (he ▸ hnb)
+      rw [find_linkStep_ne id lc mMax acc x nb hne] at hfn
+      exact hid nb (List.mem_cons_of_mem _ hnb) n hfn l hg
+
+/-- one step of the layer loop for a FRESH id: no self link, no duplicate, and the lower layers
+still do not mention the new id -/
+theorem simple_layerStep (c : Cfg V) (id : Nat) (v : V) (lc : Nat) (ns : NodeMap V) (cur : Nat)
+    (hcur : cur ≠ id)
+    (h1 : LOK (fun k _ l => k ∉ l) ns) (h2 : LOK (fun _ _ l => l.Nodup) ns)
+    (h3 : LOK (fun _ i l => i < lc + 1 → id ∉ l) ns) :
+    (layerStep c id v lc ns cur).2 ≠ id ∧
+    LOK (fun k _ l => k ∉ l) (layerStep c id v lc ns cur).1 ∧
+    LOK (fun _ _ l => l.Nodup) (layerStep c id v lc ns cur).1 ∧
+    LOK (fun _ i l => i < lc → id ∉ l) (layerStep c id v lc ns cur).1 := by
+  have hadj : ∀ x, ∀ y ∈ adjAt ns lc x, y ≠ id := by
+    intro x y hy
+    obtain ⟨n, l, hf, hg, hyl⟩ := adjAt_mem hy
+    intro he; subst he
+    exact h3 x n hf lc l hg (Nat.lt_succ_self _) hyl
+  have hs := searchLayer_sound (adjAt ns lc) (dq c ns v) c.efc c.fuel cur
+  have hsel_ne : id ∉ selectHeur c ns (dq c ns v) (searchLayer (adjAt ns lc) (dq c ns v) c.efc c.fuel cur)
+      (if lc = 0 then c.mMax else c.m) := by
+    intro hm
+    exact reach_ne (hs.2.1 id (selectHeur_mem c ns _ _ _ id hm).2) hadj hcur rfl
+  have hsel_nd := selectHeur_nodup c ns (dq c ns v) _ (if lc = 0 then c.mMax else c.m) hs.1
+  refine ⟨?_, ?_, ?_, ?_⟩
+  · simp only [layerStep]
+    intro he
+    cases hsel : selectHeur c ns (dq c ns v) (searchLayer (adjAt ns lc) (dq c ns v) c.efc c.fuel cur)
+        (if lc = 0 then c.mMax else c.m) with
+    | nil => rw [hsel] at he; exact hcur he
+    | cons a as =>
+      rw [hsel] at he hsel_ne
+      simp only [List.headD_cons] at he
+      exact hsel_ne (he ▸ List.mem_cons_self ..)
+  · simp only [layerStep]
+    refine LOK_pruneFold (R := fun k _ l => k ∉ l) c lc _ ?_ _ _ ?_
+    · intro nb old key ho hm
+      exact ho ((sortBy_perm key old).mem_iff.mp (List.mem_of_mem_take hm))
+    · refine LOK_linkFold_mem (R := fun k _ l => k ∉ l) id lc _ _ ?_ (_, []) ?_
+      · intro nb hnb old ho hm
+        rw [List.mem_append, List.mem_singleton] at hm
+        cases hm with
+        | inl hm => exact ho hm
+        | inr hm => exact hsel_ne (hm ▸ hnb)
+      · exact LOK_setLayer h1 id lc _ hsel_ne
+  · simp only [layerStep]
+    refine LOK_pruneFold (R := fun _ _ l => l.Nodup) c lc _ ?_ _ _ ?_
+    · intro nb old key ho
+      exact ((sortBy_perm key old).nodup_iff.mpr ho).sublist (List.take_sublist _ _)
+    · refine linkFold_nodup id lc _ _ hsel_nd (_, []) ?_ ?_
+      · exact LOK_setLayer h2 id lc _ hsel_nd
+      · intro nb hnb n hfn l hg
+        have hne : id ≠ nb := fun he => hsel_ne (he ▸ hnb)
+        simp only [setLayer, find_modify, hne, if_false] at hfn
+        exact h3 nb n hfn lc l hg (Nat.lt_succ_self _)
+  · apply LOK_layerStep c id v lc ns cur (LOK_mono h3 (fun k i l hl hi => hl (Nat.lt_succ_of_lt hi)))
+    · intro sel _ _ hi; exact absurd hi (Nat.lt_irrefl _)
+    · intro nb old _ hi; exact absurd hi (Nat.lt_irrefl _)
+    · intro nb old key _ hi; exact absurd hi (Nat.lt_irrefl _)
+
+theorem simple_layers (c : Cfg V) (id : Nat) (v : V) :
+    ∀ (n : Nat) (ns : NodeMap V) (cur : Nat), cur ≠ id →
+      LOK (fun k _ l => k ∉ l) ns → LOK (fun _ _ l => l.Nodup) ns →
+      LOK (fun _ i l => i < n → id ∉ l) ns →
+      LOK (fun k _ l => k ∉ l) (layers c id v n ns cur) ∧
+      LOK (fun _ _ l => l.Nodup) (layers c id v n ns cur) := by
+  intro n
+  induction n with
+  | zero => intro ns cur _ h1 h2 _; exact ⟨h1, h2⟩
+  | succ lc ih =>
+    intro ns cur hcur h1 h2 h3
+    simp only [layers]
+    obtain ⟨g0, g1, g2, g3⟩ := simple_layerStep c id v lc ns cur hcur h1 h2 h3
+    exact ih _ _ g0 g1 g2 g3
+
+/-- well-formed, no self link, no duplicate -/
+structure Simple (ix : Index V) : Prop where
+  inv : Inv ix
+  noself : LOK (fun k _ l => k ∉ l) ix.nodes
+  nodup : LOK (fun _ _ l => l.Nodup) ix.nodes
+
+theorem Simple.insert_fresh (c : Cfg V) {ix : Index V} (h : Simple ix) (id level : Nat) (v : V)
+    (hid : id ∉ keys ix.nodes) : Simple (insert c ix id level v) := by
+  refine ⟨h.inv.insert c id level v, ?_, ?_⟩
+  all_goals
+    have hp1 := LOK_put_empty h.noself id level v (fun _ => by simp)
+    have hp2 := LOK_put_empty h.nodup id level v (fun _ => by simp)
+    have hp3 : LOK (fun _ _ l => id ∉ l) (put ix.nodes id ⟨v, List.replicate (level + 1) []⟩) :=
+      LOK_put_empty (LOK_mono h.inv.nodang (fun k i l hl hm => hid (hl id hm))) id level v
+        (fun _ => by simp)
+    unfold HnswBuild.insert
+    cases he : ix.entry with
+    | none => first | exact hp1 | exact hp2
+    | some ep =>
+      simp only
+      have hep : ep ≠ id := fun hh => hid (hh ▸ h.inv.entry_present ep he)
+      have hadj : ∀ lc x, ∀ y ∈ adjAt (put ix.nodes id ⟨v, List.replicate (level + 1) []⟩) lc x, y ≠ id := by
+        intro lc x y hy
+        obtain ⟨n, l, hf, hg, hyl⟩ := adjAt_mem hy
+        intro hh; subst hh
+        exact hp3 x n hf lc l hg hyl
+      have hcur := descendFrom_ne c _ v level id hadj (ix.maxLevel - level) ep hep
+      have hl := simple_layers c id v (min level ix.maxLevel + 1) _ _ hcur hp1 hp2
+        (LOK_mono hp3 (fun k i l hl _ => hl))
+      split
+      · first | exact hl.1 | exact hl.2
+      · first | exact hl.1 | exact hl.2
+
+theorem Simple.remove {ix : Index V} (h : Simple ix) (id pick : Nat) : Simple (remove ix id pick).1 :=
+  ⟨h.inv.remove id pick,
+   LOK_remove id pick (fun k i l hl hm => hl (List.mem_filter.mp hm).1) h.noself,
+   LOK_remove id pick (fun k i l hl => hl.sublist List.filter_sublist) h.nodup⟩
+
+theorem Simple.foldl (c : Cfg V) (ops : List (Op V)) {ix : Index V} (h : Simple ix)
+    (hf : freshRun c ix ops = true) : Simple (ops.foldl (HnswBuild.step c) ix) := by
+  induction ops generalizing ix with
+  | nil => exact h
+  | cons op rest ih =>
+    cases op with
+    | ins id level v =>
+      simp only [freshRun, Bool.and_eq_true, Bool.not_eq_true', List.contains_eq_mem,
+        decide_eq_false_iff_not] at hf
+      exact ih (h.insert_fresh c id level v hf.1) hf.2
+    | rem id pick =>
+      simp only [freshRun] at hf
+      exact ih (h.remove id pick) hf
+
+/-- **C18 (construction, b + c), partial.** For every history in which each insert is of an id that
+is not present at that moment (decidable: `freshRun`), no node lists itself and no neighbour list
+contains an id twice.  Missing: re-inserting a present id — there both fail
+(`c18_witness_reinsert_self_link`). -/
+theorem c18_build_no_self_no_dup_partial (c : Cfg V) (ops : List (Op V))
+    (hf : freshRun c HnswBuild.empty ops = true) :
+    ∀ k n, find (run c ops).nodes k = some n → ∀ l ∈ n.nbrs, k ∉ l ∧ l.Nodup := by
+  have h : Simple (run c ops) :=
+    Simple.foldl c ops ⟨Inv.empty, fun k n hf => by simp [HnswBuild.empty, find] at hf,
+      fun k n hf => by simp [HnswBuild.empty, find] at hf⟩ hf
+  intro k n hfk l hl
+  obtain ⟨i, hi, hli⟩ := List.mem_iff_getElem.mp hl
+  have hg : n.nbrs[i]? = some l := by rw [List.getElem?_eq_getElem hi, hli]
+  exact ⟨h.noself k n hfk i l hg, h.nodup k n hfk i l hg⟩
+
 /-! ## witnesses: what is NOT an invariant of the code (V = Nat, distance |a − b|) -/
 
 def wCfg : Cfg Nat :=
@@ -427,5 +769,548 @@ theorem c18_diffBits_zero_iff (a b : List Bool) (hl : a.length = b.length) :
         · exact hxy
         · simp [hxy] at h1
       · intro ⟨h1, h2⟩; simp [h1, h2]
+
+/-! ### Hamming distance on packed words = number of differing sign bits -/
+
+theorem popcount_step (n : Nat) : popcount n = n % 2 + popcount (n / 2) := by
+  cases n with
+  | zero => simp [popcount]
+  | succ m => rw [popcount]
+
+theorem xor_mod_two (x y : Nat) : (x ^^^ y) % 2 = if x % 2 = y % 2 then 0 else 1 := by
+  have h := @Nat.xor_mod_two_eq_one x y
+  rcases Nat.mod_two_eq_zero_or_one x with hx | hx <;>
+  rcases Nat.mod_two_eq_zero_or_one y with hy | hy <;>
+  rcases Nat.mod_two_eq_zero_or_one (x ^^^ y) with hz | hz <;>
+  simp [hx, hy, hz] at h ⊢
+
+theorem bitsVal_cons_div (b : Bool) (bs : List Bool) : bitsVal (b :: bs) / 2 = bitsVal bs := by
+  cases b
+  · show (0 + 2 * bitsVal bs) / 2 = bitsVal bs; omega
+  · show (1 + 2 * bitsVal bs) / 2 = bitsVal bs; omega
+
+theorem bitsVal_cons_mod (b : Bool) (bs : List Bool) :
+    bitsVal (b :: bs) % 2 = if b then 1 else 0 := by
+  cases b
+  · show (0 + 2 * bitsVal bs) % 2 = 0; omega
+  · show (1 + 2 * bitsVal bs) % 2 = 1; omega
+
+theorem popcount_xor_bits (x y : List Bool) (h : x.length = y.length) :
+    popcount (bitsVal x ^^^ bitsVal y) = diffBits x y := by
+  induction x generalizing y with
+  | nil => cases y with
+    | nil => simp [bitsVal, diffBits, popcount]
+    | cons c cs => simp at h
+  | cons b bs ih =>
+    cases y with
+    | nil => simp at h
+    | cons c cs =>
+      simp only [List.length_cons, Nat.add_right_cancel_iff] at h
+      rw [popcount_step, Nat.xor_div_two, bitsVal_cons_div, bitsVal_cons_div, ih cs h, xor_mod_two,
+        bitsVal_cons_mod, bitsVal_cons_mod]
+      simp only [diffBits]
+      cases b <;> cases c <;> simp
+
+theorem diffBits_take_drop (k : Nat) (x y : List Bool) :
+    diffBits x y = diffBits (x.take k) (y.take k) + diffBits (x.drop k) (y.drop k) := by
+  induction k generalizing x y with
+  | zero => simp [diffBits]
+  | succ k ih =>
+    cases x with
+    | nil => simp [diffBits]
+    | cons a as =>
+      cases y with
+      | nil => simp [diffBits]
+      | cons b bs =>
+        simp only [List.take_succ_cons, List.drop_succ_cons, diffBits]
+        rw [ih as bs]; omega
+
+theorem hamming_pack (n : Nat) (x y : List Bool) (h : x.length = y.length) :
+    hammingWords (packWords n x) (packWords n y) + diffBits (x.drop (64 * n)) (y.drop (64 * n)) =
+      diffBits x y := by
+  induction n generalizing x y with
+  | zero => simp [packWords, hammingWords]
+  | succ n ih =>
+    simp only [packWords, hammingWords]
+    have h1 : (x.take 64).length = (y.take 64).length := by simp [List.length_take, h]
+    have h2 : (x.drop 64).length = (y.drop 64).length := by simp [List.length_drop, h]
+    have e1 := ih (x.drop 64) (y.drop 64) h2
+    rw [List.drop_drop, List.drop_drop] at e1
+    have e2 : 64 + 64 * n = 64 * (n + 1) := by omega
+    have e3 : 64 * n + 64 = 64 * (n + 1) := by omega
+    first
+      | rw [e2] at e1
+      | rw [e3] at e1
+    rw [popcount_xor_bits _ _ h1, diffBits_take_drop 64 x y]
+    omega
+
+/-- **binary quantisation.** `hamming_distance` on the packed `u64` words of two vectors of the
+same dimension is exactly the number of positions whose sign bits differ. -/
+theorem c18_hamming_counts_differing_sign_bits (a b : List Int) (h : a.length = b.length) :
+    hammingWords (bqQuantize a) (bqQuantize b) = diffBits (signBits a) (signBits b) := by
+  unfold bqQuantize
+  rw [h]
+  have hl : (signBits a).length = (signBits b).length := by simp [signBits, h]
+  have e := hamming_pack ((b.length + 63) / 64) (signBits a) (signBits b) hl
+  have d1 : (signBits a).drop (64 * ((b.length + 63) / 64)) = [] := by
+    apply List.drop_eq_nil_of_le
+    simp only [signBits, List.length_map]; omega
+  rw [d1] at e
+  simp only [diffBits] at e
+  omega
+
+/-! ### (f2): the entry point sits on the top level — fresh inserts, entry point never removed -/
+
+/-- `neighbors.len()` of a present node (level + 1) -/
+def flen (ns : NodeMap V) (k : Nat) : Option Nat := (find ns k).map (fun n => n.nbrs.length)
+
+theorem flen_setLayer (ns : NodeMap V) (k lc : Nat) (l : List Nat) (k' : Nat) :
+    flen (setLayer ns k lc l) k' = flen ns k' := by
+  unfold flen setLayer
+  rw [find_modify]
+  split
+  · cases find ns k' with
+    | none => rfl
+    | some n => simp [List.length_set]
+  · rfl
+
+theorem flen_linkStep (id lc mMax : Nat) (acc : NodeMap V × List Nat) (nb k' : Nat) :
+    flen (linkStep id lc mMax acc nb).1 k' = flen acc.1 k' := by
+  unfold linkStep
+  cases find acc.1 nb with
+  | none => rfl
+  | some n =>
+    simp only
+    split
+    · exact flen_setLayer _ _ _ _ _
+    · rfl
+
+theorem flen_linkFold (id lc mMax : Nat) (sel : List Nat) (acc : NodeMap V × List Nat) (k' : Nat) :
+    flen (sel.foldl (linkStep id lc mMax) acc).1 k' = flen acc.1 k' := by
+  induction sel generalizing acc with
+  | nil => rfl
+  | cons x xs ih => rw [List.foldl_cons, ih, flen_linkStep]
+
+theorem flen_pruneOne (c : Cfg V) (lc mMax : Nat) (ns : NodeMap V) (nb k' : Nat) :
+    flen (pruneOne c lc mMax ns nb) k' = flen ns k' := by
+  unfold pruneOne
+  cases find ns nb with
+  | none => rfl
+  | some n =>
+    simp only
+    split
+    · split
+      · rfl
+      · exact flen_setLayer _ _ _ _ _
+    · rfl
+
+theorem flen_pruneFold (c : Cfg V) (lc mMax : Nat) (needs : List Nat) (ns : NodeMap V) (k' : Nat) :
+    flen (needs.foldl (pruneOne c lc mMax) ns) k' = flen ns k' := by
+  induction needs generalizing ns with
+  | nil => rfl
+  | cons x xs ih => rw [List.foldl_cons, ih, flen_pruneOne]
+
+theorem flen_layerStep (c : Cfg V) (id : Nat) (v : V) (lc : Nat) (ns : NodeMap V) (cur k' : Nat) :
+    flen (layerStep c id v lc ns cur).1 k' = flen ns k' := by
+  simp only [layerStep, flen_pruneFold, flen_linkFold, flen_setLayer]
+
+theorem flen_layers (c : Cfg V) (id : Nat) (v : V) (n : Nat) (ns : NodeMap V) (cur k' : Nat) :
+    flen (layers c id v n ns cur) k' = flen ns k' := by
+  induction n generalizing ns cur with
+  | zero => rfl
+  | succ lc ih => simp only [layers]; rw [ih, flen_layerStep]
+
+theorem flen_put (ns : NodeMap V) (id level : Nat) (v : V) (k' : Nat) :
+    flen (put ns id ⟨v, List.replicate (level + 1) []⟩) k' =
+      if id = k' then some (level + 1) else flen ns k' := by
+  unfold flen
+  rw [find_put]
+  split
+  · simp
+  · rfl
+
+theorem flen_insert (c : Cfg V) (ix : Index V) (id level : Nat) (v : V) (k' : Nat) :
+    flen (insert c ix id level v).nodes k' = if id = k' then some (level + 1) else flen ix.nodes k' := by
+  unfold HnswBuild.insert
+  cases ix.entry with
+  | none => exact flen_put _ _ _ _ _
+  | some ep =>
+    simp only
+    split
+    · simp only; rw [flen_layers, flen_put]
+    · simp only; rw [flen_layers, flen_put]
+
+/-- fresh inserts only, and the entry point is never removed (decidable) -/
+def tameRun (c : Cfg V) : Index V → List (Op V) → Bool
+  | _, [] => true
+  | ix, .ins id level v :: r => !(keys ix.nodes).contains id && tameRun c (insert c ix id level v) r
+  | ix, .rem id pick :: r => !(ix.entry == some id) && tameRun c (remove ix id pick).1 r
+
+/-- the entry point has `max_level + 1` layers and nobody has more -/
+structure Top (ix : Index V) : Prop where
+  inv : Inv ix
+  entry_top : ∀ e, ix.entry = some e → flen ix.nodes e = some (ix.maxLevel + 1)
+  all_le : ∀ k len, flen ix.nodes k = some len → len ≤ ix.maxLevel + 1
+
+theorem Top.insert_fresh (c : Cfg V) {ix : Index V} (h : Top ix) (id level : Nat) (v : V)
+    (hid : id ∉ keys ix.nodes) : Top (insert c ix id level v) := by
+  refine ⟨h.inv.insert c id level v, ?_, ?_⟩
+  · intro e he
+    rw [flen_insert]
+    unfold HnswBuild.insert at he ⊢
+    cases hent : ix.entry with
+    | none =>
+      rw [hent] at he
+      simp only [Option.some.injEq] at he
+      simp [he]
+    | some ep =>
+      rw [hent] at he
+      simp only at he ⊢
+      split at he
+      · simp only [Option.some.injEq] at he; simp [he, *]
+      · rename_i hlt
+        simp only [Option.some.injEq] at he
+        subst he
+        have hne : id ≠ ep := fun hh => hid (hh ▸ h.inv.entry_present ep hent)
+        simp only [hne, if_false, hlt]
+        exact h.entry_top ep hent
+  · intro k len hk
+    rw [flen_insert] at hk
+    have hmax : (insert c ix id level v).maxLevel = if ix.entry = none then level
+        else if ix.maxLevel < level then level else ix.maxLevel := by
+      unfold HnswBuild.insert
+      cases ix.entry with
+      | none => simp
+      | some ep => simp only; split <;> simp [*]
+    rw [hmax]
+    by_cases hik : id = k
+    · simp only [hik, if_true, Option.some.injEq] at hk
+      subst hk
+      split
+      · omega
+      · split <;> omega
+    · simp only [hik, if_false] at hk
+      have hle := h.all_le k len hk
+      split
+      · rename_i hnone
+        have := h.inv.entry_none hnone
+        rw [this] at hk; simp [flen, find] at hk
+      · split <;> omega
+
+theorem Top.remove_other {ix : Index V} (h : Top ix) (id pick : Nat) (hne : ix.entry ≠ some id) :
+    Top (remove ix id pick).1 := by
+  have hfl : ∀ k len, flen (remove ix id pick).1.nodes k = some len → flen ix.nodes k = some len := by
+    intro k len hk
+    unfold HnswBuild.remove at hk
+    cases hf : find ix.nodes id with
+    | none => rw [hf] at hk; exact hk
+    | some nd =>
+      rw [hf] at hk
+      simp only [flen, find_unlink, find_eraseKey] at hk ⊢
+      by_cases hki : k = id
+      · simp [hki] at hk
+      · simp only [hki, if_false] at hk
+        cases hfk : find ix.nodes k with
+        | none => rw [hfk] at hk; simp at hk
+        | some n0 => rw [hfk] at hk; simpa using hk
+  have hent : (remove ix id pick).1.entry = ix.entry ∧ (remove ix id pick).1.maxLevel = ix.maxLevel := by
+    unfold HnswBuild.remove
+    cases find ix.nodes id with
+    | none => exact ⟨rfl, rfl⟩
+    | some nd => simp [hne]
+  refine ⟨h.inv.remove id pick, ?_, ?_⟩
+  · intro e he
+    rw [hent.1] at he
+    rw [hent.2]
+    have h0 := h.entry_top e he
+    have hei : e ≠ id := fun hh => hne (hh ▸ he)
+    unfold HnswBuild.remove
+    cases hf : find ix.nodes id with
+    | none => exact h0
+    | some nd =>
+      simp only [flen, find_unlink, find_eraseKey, hei, if_false] at h0 ⊢
+      cases hfe : find ix.nodes e with
+      | none => rw [hfe] at h0; simp at h0
+      | some n0 => rw [hfe] at h0; simpa using h0
+  · intro k len hk
+    rw [hent.2]
+    exact h.all_le k len (hfl k len hk)
+
+theorem Top.foldl (c : Cfg V) (ops : List (Op V)) {ix : Index V} (h : Top ix)
+    (hf : tameRun c ix ops = true) : Top (ops.foldl (HnswBuild.step c) ix) := by
+  induction ops generalizing ix with
+  | nil => exact h
+  | cons op rest ih =>
+    cases op with
+    | ins id level v =>
+      simp only [tameRun, Bool.and_eq_true, Bool.not_eq_true', List.contains_eq_mem,
+        decide_eq_false_iff_not] at hf
+      exact ih (h.insert_fresh c id level v hf.1) hf.2
+    | rem id pick =>
+      simp only [tameRun, Bool.and_eq_true, Bool.not_eq_true', beq_eq_false_iff_ne, ne_eq] at hf
+      exact ih (h.remove_other id pick hf.1) hf.2
+
+/-- **C18 (construction, f2), partial.** For every history that inserts only ids not present at
+that moment and never removes the current entry point (decidable: `tameRun`), the entry point
+has level `max_level` and no present node has a greater level.  Missing: `remove(entry point)`
+(keeps `max_level`, picks an arbitrary node: `c18_witness_remove_entry_keeps_max_level`) and a
+re-insert of the entry point with a lower level. -/
+theorem c18_build_entry_on_top_partial (c : Cfg V) (ops : List (Op V))
+    (hf : tameRun c HnswBuild.empty ops = true) :
+    (∀ e, (run c ops).entry = some e → levelOf (run c ops).nodes e = some (run c ops).maxLevel) ∧
+    (∀ k lv, levelOf (run c ops).nodes k = some lv → lv ≤ (run c ops).maxLevel) := by
+  have h : Top (run c ops) :=
+    Top.foldl c ops ⟨Inv.empty, fun e he => by simp [HnswBuild.empty] at he,
+      fun k len hk => by simp [HnswBuild.empty, flen, find] at hk⟩ hf
+  constructor
+  · intro e he
+    have := h.entry_top e he
+    unfold flen at this
+    unfold levelOf
+    cases hfe : find (run c ops).nodes e with
+    | none => rw [hfe] at this; simp at this
+    | some n =>
+      rw [hfe] at this
+      simp only [Option.map_some, Option.some.injEq] at this ⊢
+      omega
+  · intro k lv hk
+    unfold levelOf at hk
+    cases hfk : find (run c ops).nodes k with
+    | none => rw [hfk] at hk; simp at hk
+    | some n =>
+      rw [hfk] at hk
+      simp only [Option.map_some, Option.some.injEq] at hk
+      have := h.all_le k n.nbrs.length (by simp [flen, hfk])
+      omega
+
+/-- in the state with a self link and a duplicate (re-insert of a present id) a search still
+returns each id once: the `visited` set of `search_layer` makes distinctness independent of the
+graph's shape (`c18_search_sound` has no hypothesis on the graph) -/
+theorem c18_witness_reinsert_search_distinct :
+    let ix := run wCfg [.ins 1 0 5, .ins 2 0 7, .ins 1 0 9]
+    chkB ix = false ∧
+    (searchWithEf ix.toGraph (dq wCfg ix.nodes 9) 5 8 10).map Prod.fst = [1] := by
+  decide +kernel
+
+/-! ### (e): a node is listed on layer `i` only if it has more than `i` layers — same histories -/
+
+/-- node `x` has more than `j` layers (level ≥ j) under the length table `F` -/
+def PL (F : Nat → Option Nat) (j x : Nat) : Prop := ∃ len, F x = some len ∧ j < len
+
+theorem PL_mono {F : Nat → Option Nat} {j j' x : Nat} (h : PL F j x) (hj : j' ≤ j) : PL F j' x := by
+  obtain ⟨len, h1, h2⟩ := h
+  exact ⟨len, h1, by omega⟩
+
+theorem reach_P {adj : Nat → List Nat} {P : Nat → Prop} {a b : Nat} (h : ReachR (adjRel adj) a b)
+    (hadj : ∀ x, ∀ y ∈ adj x, P y) (ha : P a) : P b := by
+  induction h with
+  | refl => exact ha
+  | tail _ hs _ => exact hadj _ _ hs
+
+theorem adj_PL {F : Nat → Option Nat} {ns : NodeMap V} {lc : Nat}
+    (h : LOK (fun _ i l => ∀ x ∈ l, PL F i x) ns) : ∀ x, ∀ y ∈ adjAt ns lc x, PL F lc y := by
+  intro x y hy
+  obtain ⟨n, l, hf, hg, hyl⟩ := adjAt_mem hy
+  exact h x n hf lc l hg y hyl
+
+theorem headD_P {P : Nat → Prop} {l : List Nat} {d : Nat} (hl : ∀ x ∈ l, P x) (hd : P d) :
+    P (l.headD d) := by
+  cases l with
+  | nil => exact hd
+  | cons a as => exact hl a (List.mem_cons_self ..)
+
+theorem level_layerStep (c : Cfg V) (id : Nat) (v : V) (lc : Nat) (ns : NodeMap V) (cur : Nat)
+    (F : Nat → Option Nat) (hid : PL F lc id) (hcur : PL F lc cur)
+    (h : LOK (fun _ i l => ∀ x ∈ l, PL F i x) ns) :
+    PL F lc (layerStep c id v lc ns cur).2 ∧
+    LOK (fun _ i l => ∀ x ∈ l, PL F i x) (layerStep c id v lc ns cur).1 := by
+  have hs := searchLayer_sound (adjAt ns lc) (dq c ns v) c.efc c.fuel cur
+  have hsel : ∀ x ∈ selectHeur c ns (dq c ns v)
+      (searchLayer (adjAt ns lc) (dq c ns v) c.efc c.fuel cur) (if lc = 0 then c.mMax else c.m),
+      PL F lc x := by
+    intro x hx
+    exact reach_P (hs.2.1 x (selectHeur_mem c ns _ _ _ x hx).2) (adj_PL h) hcur
+  constructor
+  · simp only [layerStep]
+    exact headD_P hsel hcur
+  · simp only [layerStep]
+    refine LOK_pruneFold (R := fun _ i l => ∀ x ∈ l, PL F i x) c lc _ ?_ _ _ ?_
+    · intro nb old key ho x hx
+      exact ho x ((sortBy_perm key old).mem_iff.mp (List.mem_of_mem_take hx))
+    · refine LOK_linkFold (R := fun _ i l => ∀ x ∈ l, PL F i x) id lc _ ?_ _ (_, []) ?_
+      · intro nb old ho x hx
+        rw [List.mem_append, List.mem_singleton] at hx
+        cases hx with
+        | inl hx => exact ho x hx
+        | inr hx => rw [hx]; exact hid
+      · exact LOK_setLayer h id lc _ hsel
+
+theorem level_layers (c : Cfg V) (id : Nat) (v : V) (F : Nat → Option Nat) :
+    ∀ (n : Nat) (ns : NodeMap V) (cur : Nat), (∀ j, j < n → PL F j id) → (∀ j, j < n → PL F j cur) →
+      LOK (fun _ i l => ∀ x ∈ l, PL F i x) ns →
+      LOK (fun _ i l => ∀ x ∈ l, PL F i x) (layers c id v n ns cur) := by
+  intro n
+  induction n with
+  | zero => intro ns cur _ _ h; exact h
+  | succ lc ih =>
+    intro ns cur hid hcur h
+    simp only [layers]
+    obtain ⟨g0, g1⟩ := level_layerStep c id v lc ns cur F (hid lc (Nat.lt_succ_self _))
+      (hcur lc (Nat.lt_succ_self _)) h
+    exact ih _ _ (fun j hj => hid j (Nat.lt_succ_of_lt hj))
+      (fun j hj => PL_mono g0 (Nat.le_of_lt hj)) g1
+
+theorem level_descend (c : Cfg V) (ns : NodeMap V) (v : V) (lo : Nat) (F : Nat → Option Nat)
+    (h : LOK (fun _ i l => ∀ x ∈ l, PL F i x) ns) :
+    ∀ (n cur : Nat), PL F (lo + n) cur → PL F lo (descendFrom c ns v lo n cur) := by
+  intro n
+  induction n with
+  | zero => intro cur hc; exact hc
+  | succ m ih =>
+    intro cur hc
+    simp only [descendFrom]
+    apply ih
+    have h1 : PL F (lo + m + 1) cur := PL_mono hc (by omega)
+    have h2 := reach_P (searchLayerSingle_reach (adjAt ns (lo + m + 1)) (dq c ns v) c.fuel cur)
+      (adj_PL h) h1
+    exact PL_mono h2 (by omega)
+
+structure Lvl (ix : Index V) : Prop where
+  top : Top ix
+  lv : LOK (fun _ i l => ∀ x ∈ l, PL (flen ix.nodes) i x) ix.nodes
+
+theorem Lvl.insert_fresh (c : Cfg V) {ix : Index V} (h : Lvl ix) (id level : Nat) (v : V)
+    (hid : id ∉ keys ix.nodes) : Lvl (insert c ix id level v) := by
+  refine ⟨h.top.insert_fresh c id level v hid, ?_⟩
+  have hF : flen (insert c ix id level v).nodes =
+      fun k => if id = k then some (level + 1) else flen ix.nodes k :=
+    funext (flen_insert c ix id level v)
+  rw [hF]
+  have hpres : ∀ x len, flen ix.nodes x = some len → id ≠ x := by
+    intro x len hx he
+    subst he
+    apply hid
+    rw [← find_isSome_iff]
+    unfold flen at hx
+    cases hfx : find ix.nodes id with
+    | none => rw [hfx] at hx; simp at hx
+    | some n => rfl
+  have hmono : ∀ (j x : Nat), PL (flen ix.nodes) j x →
+      PL (fun k => if id = k then some (level + 1) else flen ix.nodes k) j x := by
+    intro j x ⟨len, h1, h2⟩
+    exact ⟨len, by simp only [hpres x len h1, if_false]; exact h1, h2⟩
+  have hput : LOK (fun _ i l => ∀ x ∈ l,
+      PL (fun k => if id = k then some (level + 1) else flen ix.nodes k) i x)
+      (put ix.nodes id ⟨v, List.replicate (level + 1) []⟩) :=
+    LOK_put_empty (LOK_mono h.lv (fun k i l hl x hx => hmono i x (hl x hx))) id level v
+      (fun _ => by simp)
+  have hidF : ∀ j, j < level + 1 →
+      PL (fun k => if id = k then some (level + 1) else flen ix.nodes k) j id :=
+    fun j hj => ⟨level + 1, by simp, hj⟩
+  unfold HnswBuild.insert
+  cases he : ix.entry with
+  | none => exact hput
+  | some ep =>
+    simp only
+    have hepF : PL (fun k => if id = k then some (level + 1) else flen ix.nodes k) ix.maxLevel ep :=
+      hmono _ _ ⟨ix.maxLevel + 1, h.top.entry_top ep he, Nat.lt_succ_self _⟩
+    have hcur : ∀ j, j < min level ix.maxLevel + 1 →
+        PL (fun k => if id = k then some (level + 1) else flen ix.nodes k) j
+          (descendFrom c (put ix.nodes id ⟨v, List.replicate (level + 1) []⟩) v level
+            (ix.maxLevel - level) ep) := by
+      intro j hj
+      by_cases hle : level ≤ ix.maxLevel
+      · have h1 := level_descend c _ v level _ hput (ix.maxLevel - level) ep
+          (PL_mono hepF (by omega))
+        exact PL_mono h1 (by omega)
+      · have h0 : ix.maxLevel - level = 0 := by omega
+        rw [h0]
+        simp only [descendFrom]
+        exact PL_mono hepF (by omega)
+    have hl := level_layers c id v _ (min level ix.maxLevel + 1) _ _
+      (fun j hj => hidF j (by omega)) hcur hput
+    split
+    · exact hl
+    · exact hl
+
+theorem Lvl.remove_other {ix : Index V} (h : Lvl ix) (id pick : Nat) (hne : ix.entry ≠ some id) :
+    Lvl (remove ix id pick).1 := by
+  refine ⟨h.top.remove_other id pick hne, ?_⟩
+  cases hf : find ix.nodes id with
+  | none =>
+    have hsame : (remove ix id pick).1 = ix := by unfold HnswBuild.remove; rw [hf]
+    rw [hsame]; exact h.lv
+  | some nd =>
+    have hflen : ∀ x, x ≠ id → flen (remove ix id pick).1.nodes x = flen ix.nodes x := by
+      intro x hx
+      unfold HnswBuild.remove
+      rw [hf]
+      simp only [flen, find_unlink, find_eraseKey, hx, if_false]
+      cases find ix.nodes x with
+      | none => rfl
+      | some n0 => simp
+    intro k n hfk i l hg x hx
+    unfold HnswBuild.remove at hfk
+    rw [hf] at hfk
+    simp only at hfk
+    rw [find_unlink, find_eraseKey] at hfk
+    by_cases hk : k = id
+    · simp [hk] at hfk
+    · simp only [hk, if_false] at hfk
+      cases hfn : find ix.nodes k with
+      | none => rw [hfn] at hfk; simp at hfk
+      | some n0 =>
+        rw [hfn] at hfk
+        simp only [Option.map_some, Option.some.injEq] at hfk
+        subst hfk
+        simp only [List.getElem?_map] at hg
+        cases hg0 : n0.nbrs[i]? with
+        | none => rw [hg0] at hg; simp at hg
+        | some l0 =>
+          rw [hg0] at hg
+          simp only [Option.map_some, Option.some.injEq] at hg
+          subst hg
+          rw [List.mem_filter] at hx
+          have hxi : x ≠ id := by simpa using hx.2
+          obtain ⟨len, h1, h2⟩ := h.lv k n0 hfn i l0 hg0 x hx.1
+          exact ⟨len, by rw [hflen x hxi]; exact h1, h2⟩
+
+theorem Lvl.foldl (c : Cfg V) (ops : List (Op V)) {ix : Index V} (h : Lvl ix)
+    (hf : tameRun c ix ops = true) : Lvl (ops.foldl (HnswBuild.step c) ix) := by
+  induction ops generalizing ix with
+  | nil => exact h
+  | cons op rest ih =>
+    cases op with
+    | ins id level v =>
+      simp only [tameRun, Bool.and_eq_true, Bool.not_eq_true', List.contains_eq_mem,
+        decide_eq_false_iff_not] at hf
+      exact ih (h.insert_fresh c id level v hf.1) hf.2
+    | rem id pick =>
+      simp only [tameRun, Bool.and_eq_true, Bool.not_eq_true', beq_eq_false_iff_ne, ne_eq] at hf
+      exact ih (h.remove_other id pick hf.1) hf.2
+
+/-- **C18 (construction, e), partial.** For every history that inserts only ids not present at
+that moment and never removes the current entry point (`tameRun`), a node appears in a neighbour
+list of layer `i` only if its own level is at least `i`.  Missing: re-inserting a present id with
+a lower level (old links stay on its former upper layers) and `remove(entry point)` (later
+inserts link to the arbitrary new entry point on layers above its level). -/
+theorem c18_build_layer_membership_partial (c : Cfg V) (ops : List (Op V))
+    (hf : tameRun c HnswBuild.empty ops = true) :
+    ∀ k n, find (run c ops).nodes k = some n → ∀ i l, n.nbrs[i]? = some l → ∀ x ∈ l,
+      ∃ lv, levelOf (run c ops).nodes x = some lv ∧ i ≤ lv := by
+  have h : Lvl (run c ops) :=
+    Lvl.foldl c ops ⟨⟨Inv.empty, fun e he => by simp [HnswBuild.empty] at he,
+      fun k len hk => by simp [HnswBuild.empty, flen, find] at hk⟩,
+      fun k n hf => by simp [HnswBuild.empty, find] at hf⟩ hf
+  intro k n hfk i l hg x hx
+  obtain ⟨len, h1, h2⟩ := h.lv k n hfk i l hg x hx
+  unfold flen at h1
+  unfold levelOf
+  cases hfx : find (run c ops).nodes x with
+  | none => rw [hfx] at h1; simp at h1
+  | some nx =>
+    rw [hfx] at h1
+    simp only [Option.map_some, Option.some.injEq] at h1
+    exact ⟨nx.nbrs.length - 1, by simp, by omega⟩
 
 end Grafeo.HnswBuild
